@@ -183,6 +183,11 @@ class Matcher:
         tree = sre_parse.parse(pattern)
         return self.seq(self._t(tree.data), 0, start, _Cont(lambda j: (z3.BoolVal(True), z3.IntVal(j))))
 
+    def first_end_nodes(self, nodes, start: int = 0):
+        """like first_end for an already parsed (and possibly edited) node list: LITERAL nodes may carry a z3 Int instead of a code
+        point - that is how a *symbolic* registered model name is put into the real MODEL_NAME alternation"""
+        return self.seq(self._t(nodes), 0, start, _Cont(lambda j: (z3.BoolVal(True), z3.IntVal(j))))
+
     def first_end_with(self, pattern: str, final, start: int = 0):
         """like first_end, but ``final(j) -> (ok, end)`` decides whether a match ending at j is acceptable (the
         backtracking search goes on otherwise): with ``final = lambda j: (wl == j, j)`` the result says whether
